@@ -3,7 +3,8 @@
      - a null in the patch deletes; a scalar or a list in the patch replaces;
      - a mapping in the patch merges into a mapping, key by key: the target's entries keep their
        order (merged, replaced or deleted), the keys only the patch has are appended in sorted order;
-     - "$patch: delete" on a mapping deletes;
+     - "$patch: delete" on a mapping deletes; "$patch: replace" puts the mapping (without the directive, nulls
+       dropped) in place of whatever the target holds; "$patch: merge" merges as if the directive were not there;
      - a mapping added where the target has nothing (or a null) is added without its nulls
        (and without what its own "$patch: delete" sub-mappings address);
      - what the patch does not mention stays -- except implicit nulls (""), which kustomize drops
@@ -30,6 +31,15 @@ Definition jis_delete (kvs : list (string * json)) : bool :=
   | _ => false
   end.
 
+(* "$patch: replace" / "$patch: merge": the directive entry itself is not content *)
+Definition jdir_is (d : string) (kvs : list (string * json)) : bool :=
+  match jfind "$patch" kvs with
+  | Some (JAtom _ _ v) => String.eqb v d
+  | _ => false
+  end.
+Definition jelides (kvs : list (string * json)) : bool := jdir_is "replace" kvs || jdir_is "merge" kvs.
+Definition jskip (el : bool) (k : string) : bool := el && String.eqb k "$patch".
+
 (* what stays of a target value nobody mentions *)
 Fixpoint jnorm (t : json) : option json :=
   match t with
@@ -52,11 +62,13 @@ Fixpoint jadd (p : json) : option json :=
   | JArr _ => Some p
   | JObj kvs =>
       if jis_delete kvs then None
-      else Some (JObj ((fix go (l : list (string * json)) : list (string * json) :=
-                          match l with
-                          | [] => []
-                          | (k, v) :: r => jentry k (jadd v) ++ go r
-                          end) kvs))
+      else
+        let el := jelides kvs in
+        Some (JObj ((fix go (l : list (string * json)) : list (string * json) :=
+                       match l with
+                       | [] => []
+                       | (k, v) :: r => if jskip el k then go r else jentry k (jadd v) ++ go r
+                       end) kvs))
   end.
 
 Fixpoint jassoc {A} (k : string) (l : list (string * A)) : option A :=
@@ -86,11 +98,13 @@ Fixpoint smp_spec (p : json) : option json -> option json :=
   | JArr _ => fun _ => Some p
   | JObj pk =>
       if jis_delete pk then fun _ => None
+      else if jdir_is "replace" pk then fun _ => jadd p
       else
+        let el := jelides pk in
         let fs := (fix go (l : list (string * json)) : list (string * (option json -> option json)) :=
                      match l with
                      | [] => []
-                     | (k, v) :: r => (k, smp_spec v) :: go r
+                     | (k, v) :: r => if jskip el k then go r else (k, smp_spec v) :: go r
                      end) pk in
         fun tv => match tv with
                   | Some (JObj tk) => Some (JObj (jmerge fs tk))
